@@ -388,7 +388,7 @@ def goal_passive_nograv(spec, pre, post):
   if e.get("grav") and not int(pre["jnt_actgravcomp"][int(pre["dof_jntid"][dof])]):
     exp += float(pre["qfrc_gravcomp_in"][w, dof])
   got = float(post["qfrc_passive_out"][w, dof])
-  return lib.approx(got, exp), f"gravity {'on' if e.get('grav') else 'off'}: qfrc_passive = {got}, expected spring+damper(+gravcomp if not actuator-applied)(+fluid+adhesion) = {exp}"
+  return lib.approx(got, exp, 1e-5, 1e-5), f"gravity {'on' if e.get('grav') else 'off'}: qfrc_passive = {got}, expected spring+damper(+gravcomp if not actuator-applied)(+fluid+adhesion) = {exp}"
 
 
 # ----------------------------------------------------------------------------------------------------- derivative DAMPER
